@@ -318,12 +318,19 @@ def compare_pack(sides):
     return probs, covered, notcov
 
 
-def _shipped_job(keys):
+SHIPPED_KERNELS = ['CubicSpline', 'Gaussian', 'WendlandQuinticC4',
+                   'QuinticSpline', 'WendlandQuintic', 'SuperGaussian',
+                   'WendlandQuinticC6']
+
+
+def _shipped_job(arg):
+    keys, kname = arg if isinstance(arg, tuple) else (arg, 'CubicSpline')
     try:
-        sides, nc0 = run_pack(keys)
+        sides, nc0 = run_pack(keys, kname)
     except SystemExit:
         return dict(compile_failed=keys)
     probs, covered, notcov = compare_pack(sides)
+    probs = [(k, '[kernel %s] %s' % (kname, w)) for k, w in probs]
     return dict(probs=probs, covered=covered, notcov=notcov + nc0)
 
 
@@ -371,6 +378,14 @@ def run(ctx):
     packs = pack_keys(ctx.thorough)
     upacks = G.packs(ctx.thorough, ctx.seed)
     # the big symbol packs first (longest compile)
+    # shipped equations: the kernel rotates with the seed (thorough: three
+    # kernels, one of them with libm calls)
+    if ctx.thorough:
+        kns = [SHIPPED_KERNELS[(ctx.seed + i) % len(SHIPPED_KERNELS)]
+               for i in (0, 1, 2)]
+    else:
+        kns = [SHIPPED_KERNELS[ctx.seed % len(SHIPPED_KERNELS)]]
+    packs = [(p, kn) for kn in kns for p in packs]
     jobs = [('user', u) for u in upacks] + [('shipped', p) for p in packs]
     allres = map_jobs(_any_job, jobs, ctx.ncpu, job_timeout=3000)
     res = allres[len(upacks):]
@@ -395,7 +410,7 @@ def run(ctx):
         for name, kind, what in r['probs']:
             viol.setdefault('equations:user:%s:%s' % (kind, name.split(
                 '(')[0]), (what, dict(pack=up, name=name)))
-    for pk, r in zip(packs, res):
+    for (pk, kn), r in zip(packs, res):
         if isinstance(r, Crash):
             for k in pk:
                 notcov.append((k, 'pack crashed: %s' % r.reason))
@@ -413,7 +428,7 @@ def run(ctx):
             if key in EXCLUDED:
                 continue
             viol.setdefault('equations:shipped:%s' % key.split('pysph.sph.')[
-                -1], (what, dict(key=key)))
+                -1], (what, dict(key=key, kernel=kn)))
     vs = [Violation(k, w, rep) for k, (w, rep) in sorted(viol.items())]
     cov = dict(programs=len(covered) + nuser,
                disagreements_checked=len(covered) + nuser,
@@ -448,7 +463,9 @@ def run(ctx):
                    'methods cannot run in pure Python (compiled-only '
                    'helpers, out-of-range index caught by the bounds-'
                    'checked reference), are listed under not_covered',
-                   'compiled with OpenMP off; LinkedListNNPS; CubicSpline 2-D']
+                   'compiled with OpenMP off; LinkedListNNPS; shipped '
+                   'equations in 2-D with kernel(s) %s (rotating with the '
+                   'seed)' % ', '.join(kns)]
     return Result('translation_validation', cov, assumptions, vs)
 
 
@@ -458,6 +475,6 @@ def replay(ctx, obj):
         bad = r.get('compile_failed') or any(
             n == obj.get('name') for n, k, w in r.get('probs', []))
         return dict(violates=bool(bad), problems=r.get('probs', [])[:5])
-    r = _shipped_job([obj['key']])
+    r = _shipped_job(([obj['key']], obj.get('kernel', 'CubicSpline')))
     return dict(violates=bool(r.get('probs')), result={k: v for k, v in
                                                         r.items()})
